@@ -153,7 +153,9 @@ Definition cmp_ordering_m (l r : comparison) : comparison :=
   cmp_int_m (ordering_as_i8 l) (ordering_as_i8 r).
 
 (** [eq_range_*] / [eq_rangeinc_*]: [left.start == right.start && left.end == right.end];
-    a range is the pair (start, end) *)
+    a range is the pair (start, end).  (A [RangeInclusive] also carries a private [exhausted]
+    flag that std's [==] compares and konst cannot read; the model and the property speak about
+    ranges as built from their bounds, [a..=b], where the flag is [false].) *)
 Definition eq_range_m (l r : Z * Z) : bool := (fst l =? fst r) && (snd l =? snd r).
 
 (** [eq_phantomdata], [eq_phantompinned]: [true]; [cmp_*]: [Equal] *)
@@ -263,6 +265,29 @@ Definition const_eq_slice_m := eq_slice_m.
 Definition const_cmp_slice_m := cmp_slice_m.
 Definition const_eq_str_m := eq_str_m.
 Definition const_cmp_str_m := cmp_str_m.
+
+(* ------------------------------------------------------------------ user types: impl_cmp!, try_equal! *)
+
+(** [impl_cmp!] gives a user type the kind [IsNotStdKind]; [coerce_to_cmp!] then passes the
+    reference through unchanged, so [const_eq!(l, r)] = [l.const_eq(r)] and [const_cmp!(l, r)] =
+    [l.const_cmp(r)], the user's own methods.  Those are written with [&&] and [try_equal!]:
+
+    [try_equal!(ord)]: match ord { Equal => Equal, ord => return ord }
+    [k] = the rest of the function (for a trailing [try_equal!]: [Some Eq]) *)
+Definition try_equal_m (ord : option comparison) (k : option comparison) : option comparison :=
+  match ord with
+  | None => None
+  | Some Eq => k
+  | Some o => Some o
+  end.
+
+(** [a && b] where both sides may panic and [b] runs only after [true] *)
+Definition lazy_and_m (a b : option bool) : option bool :=
+  match a with
+  | None => None
+  | Some true => b
+  | Some false => Some false
+  end.
 
 (* ------------------------------------------------------------------ assertc_eq! / assertc_ne! *)
 
